@@ -209,7 +209,7 @@ def step (st : St) (op impl : String) : St × StepOut :=
           | .release _ => !wAt.blocked
           | _ => false
         let nochild : Bool := match o with
-          | .kill aid => !(!wAt.stopped && (wAt.env.getActor aid).any (·.alive))
+          | .kill aid => !(!wAt.exited && (wAt.env.getActor aid).any (·.alive))
           | _ => false
         let m := render w' n ++ (if sendfail then " sendfail" else "") ++ (if noblock then " noblock" else "") ++ (if nogate then " nogate" else "") ++ (if nochild then " nochild" else "")
         let nt := (w'.env.log.drop n).any fun
